@@ -28,6 +28,16 @@ def run(ctx, replay):
     # before the repair 00fe1c5: an answer whose ack index differs from the sent index (follower write failure) left the
     # channel ready: the follower silently lacks a position below the cursor and never catches up without another fault
     ctx.model_check("MCReplication", "MCReplication_dev_noresync.cfg", expect="violation", timeout=600)
+    # M, unbounded in the number of steps, faults and payload ids (logs of up to 8 positions): an inductive invariant of
+    # the protocol without leader tail loss, discharged by Apalache -- Init => IndInv, IndInv /\ Next => IndInv',
+    # IndInv => the four safety properties; the invariant has models with a healthy channel and non-empty logs
+    # (NotVacuous must be violated) and the code before the repair 00fe1c5 (no resync after a mismatching answer) does
+    # NOT preserve it
+    ctx.apalache("ReplicationInd", "Init", "IndInv", 0)
+    ctx.apalache("ReplicationInd", "IndInit", "IndInv", 1)
+    ctx.apalache("ReplicationInd", "IndInit", "Safety", 0)
+    ctx.apalache("ReplicationInd", "IndInit", "NotVacuous", 0, expect="violation")
+    ctx.apalache("ReplicationInd", "IndInit", "IndInv", 1, cinit="CInitNoResync", expect="violation")
     tr = os.path.join(ctx.scratch, "repl.ndjson")
     scr = os.path.join(ctx.scratch, "scr-repl")
     os.makedirs(scr, exist_ok=True)
